@@ -13,9 +13,13 @@ text only through the ten token scanners of `BareModel/ExprScan.lean`.  This fil
   related error positions), at every fuel;
 * `parseBinary_fuel` (in `C10Ws.lean`, with `C02.fuel_sufficient`) from `parseUnary_mono` … — more fuel than needed does
   not change the result, so texts of different lengths can be compared at a common fuel;
-* three instances of `Respects`: `Lead` (blanks in front of the whole text), and `GapR` (one blank run *outside string
+* two instances of `Respects`: `LeadR` (blanks in front of the whole text), and `GapR` (one blank run *outside string
   literals and bracketed names* replaced by another one; at the end of the text the run may be empty on either side),
-  which covers trailing blanks and the stretching of an inter-token blank.
+  which covers trailing blanks and the stretching of an inter-token blank; `topLevelAt` is an executable test for
+  such a position (`gap_of_topLevelAt`);
+* the statement recognisers of `BareModel/Scan.lean` under trailing blanks (`assign?`, `funcBegin?`, `for?`, `label?`,
+  `jump?`, `include?` — the others are in `C10Lemmas.lean`) and the cascade (`shapeS_append_ws`); the assignment pattern
+  with another expression text (`assign?_replace`).
 -/
 
 namespace C10
@@ -1732,8 +1736,8 @@ theorem ws1?_bind_append {β : Type} (next : Chars → Option β) (hnil : next [
     split
     · simp only [Option.bind_some, lstrip_append_right cs ws hws]
       split
-      · rename_i h0; simp [h0, hnil]
-      · rename_i h0; simp [h0]
+      · rename_i h0; simp [hnil]
+      · simp
     · rfl
 
 theorem label?_append_ws (s : Chars) : label? (s ++ ws) = label? s := by
@@ -2368,7 +2372,7 @@ theorem mem_takeWhile_true {α : Type} {p : α → Bool} : ∀ {l : List α} {x 
       rcases h with rfl | h
       · exact ha
       · exact mem_takeWhile_true h
-    · simp [List.takeWhile_cons, ha] at h
+    · simp [ha] at h
 
 theorem lstrip_blank_append {b : Chars} (hb : allSpace b = true) (x : Chars) : lstripL (b ++ x) = lstripL x :=
   lstrip_append_ws x hb
